@@ -113,10 +113,11 @@ const (
 	kObsCounter
 	kObsUpDown
 	kObsGauge
-	kExpo // Histogram instrument with a base-2 exponential view (MaxScale 0)
+	kExpo   // Histogram instrument with a base-2 exponential view (MaxScale 0)
+	kHistNS // up-down counter with an explicit-bucket histogram view: the sum is not kept
 )
 
-var kindNames = []string{"KCounter", "KUpDown", "KH", "KGauge", "KObsCounter", "KObsUpDown", "KObsGauge", "KE"}
+var kindNames = []string{"KCounter", "KUpDown", "KH", "KGauge", "KObsCounter", "KObsUpDown", "KObsGauge", "KE", "KHN"}
 
 func (k ikind) async() bool { return k >= kObsCounter && k <= kObsGauge }
 
@@ -149,12 +150,12 @@ func zig(v int64) string {
 }
 
 func (in *instr) coqKind() string {
-	if in.kind == kHist {
+	if in.kind == kHist || in.kind == kHistNS {
 		bs := make([]string, len(in.bounds))
 		for i, b := range in.bounds {
 			bs[i] = zig(b)
 		}
-		return vgen.App("KH", vgen.List(bs))
+		return vgen.App(kindNames[in.kind], vgen.List(bs))
 	}
 	if in.kind == kExpo {
 		if in.float {
@@ -168,6 +169,9 @@ func (in *instr) coqKind() string {
 // record performs a synchronous measurement; v is in model units (scaled by 1024 for float instruments).
 func (in *instr) record(ctx context.Context, v int64, attrs []attribute.KeyValue) {
 	opt := metric.WithAttributes(attrs...)
+	if (v+int64(len(attrs)))%2 == 0 { // the other spelling of the same attributes
+		opt = metric.WithAttributeSet(attribute.NewSet(attrs...))
+	}
 	fv := float64(v) / scale
 	switch in.kind {
 	case kCounter:
@@ -176,7 +180,7 @@ func (in *instr) record(ctx context.Context, v int64, attrs []attribute.KeyValue
 		} else {
 			in.ic.Add(ctx, v, opt)
 		}
-	case kUpDown:
+	case kUpDown, kHistNS:
 		if in.float {
 			in.fu.Add(ctx, fv, opt)
 		} else {
@@ -408,7 +412,7 @@ func genKVs(r *vgen.Rand, sets [][]kv) []kv {
 func genValue(r *vgen.Rand, in *instr) int64 {
 	var v int64
 	switch in.kind {
-	case kHist:
+	case kHist, kHistNS:
 		// around the bounds, on them, and far away
 		switch r.Intn(4) {
 		case 0:
@@ -469,11 +473,11 @@ func (rn *runner) history(seedDesc string, nOps int) {
 	nInst := r.Range(1, 7)
 	kinds := make([]ikind, nInst)
 	for i := range kinds {
-		kinds[i] = ikind(r.Intn(8))
+		kinds[i] = ikind(r.Intn(9))
 	}
 	if r.Chance(1, 3) { // make sure every kind shows up regularly
-		kinds = []ikind{kCounter, kUpDown, kHist, kGauge, kObsCounter, kObsUpDown, kObsGauge, kExpo}
-		nInst = 8
+		kinds = []ikind{kCounter, kUpDown, kHist, kGauge, kObsCounter, kObsUpDown, kObsGauge, kExpo, kHistNS}
+		nInst = 9
 	}
 	// attribute sets of this history: 0-6 sets out of the pool (the empty set included)
 	nSets := r.Range(1, 6)
@@ -518,6 +522,9 @@ func (rn *runner) history(seedDesc string, nOps int) {
 
 	deltaR := sdk.NewManualReader(sdk.WithTemporalitySelector(allDelta))
 	cumR := sdk.NewManualReader(sdk.WithTemporalitySelector(allCum))
+	if r.Bool() { // the default selector is cumulative for every kind
+		cumR = sdk.NewManualReader()
+	}
 	deltaFirst := r.Bool()
 	var mp *sdk.MeterProvider
 	popts := []sdk.Option{sdk.WithReader(deltaR), sdk.WithReader(cumR)}
@@ -525,6 +532,11 @@ func (rn *runner) history(seedDesc string, nOps int) {
 		popts = []sdk.Option{sdk.WithReader(cumR), sdk.WithReader(deltaR)}
 	}
 	for i, k := range kinds {
+		if k == kHistNS {
+			popts = append(popts, sdk.WithView(sdk.NewView(
+				sdk.Instrument{Name: fmt.Sprintf("i%d", i)},
+				sdk.Stream{Aggregation: sdk.AggregationExplicitBucketHistogram{Boundaries: []float64{0, 10, 100}}})))
+		}
 		if k == kExpo {
 			popts = append(popts, sdk.WithView(sdk.NewView(
 				sdk.Instrument{Name: fmt.Sprintf("i%d", i)},
@@ -620,13 +632,47 @@ func (rn *runner) history(seedDesc string, nOps int) {
 			} else {
 				in.ic, err = meter.Int64Counter(in.name)
 			}
-		case kUpDown:
+		case kUpDown, kHistNS:
 			if in.float {
 				in.fu, err = meter.Float64UpDownCounter(in.name)
 			} else {
 				in.iu, err = meter.Int64UpDownCounter(in.name)
 			}
+			if k == kHistNS {
+				in.bounds = []int64{0, 10, 100}
+				if in.float {
+					in.bounds = []int64{0, 10 * scale, 100 * scale}
+				}
+			}
 		case kHist:
+			if hv := r.Intn(4); hv < 2 {
+				// the default boundaries: no option at all, or an invalid (not increasing) list, which
+				// is reported by an error at creation and ignored
+				def := []int64{0, 5, 10, 25, 50, 75, 100, 250, 500, 750, 1000, 2500, 5000, 7500, 10000}
+				for _, b := range def {
+					if in.float {
+						in.bounds = append(in.bounds, b*scale)
+					} else {
+						in.bounds = append(in.bounds, b)
+					}
+				}
+				var e2 error
+				switch {
+				case in.float && hv == 0:
+					in.fh, e2 = meter.Float64Histogram(in.name)
+				case in.float:
+					in.fh, e2 = meter.Float64Histogram(in.name, metric.WithExplicitBucketBoundaries(5, 1))
+				case hv == 0:
+					in.ih, e2 = meter.Int64Histogram(in.name)
+				default:
+					in.ih, e2 = meter.Int64Histogram(in.name, metric.WithExplicitBucketBoundaries(5, 1))
+				}
+				if (e2 != nil) != (hv == 1) {
+					w.Violation(fmt.Sprintf("histogram creation: boundaries option invalid=%v, error %v", hv == 1, e2), seedDesc)
+				}
+				w.Tally("histogram with the default boundaries")
+				break
+			}
 			nb := r.Range(1, 4)
 			b := int64(r.Range(-5, 5))
 			var fb []float64
@@ -707,6 +753,9 @@ func (rn *runner) history(seedDesc string, nOps int) {
 				}
 				in := rn.insts[a.inst]
 				opt := metric.WithAttributes(toAttr(a.kvs)...)
+				if (a.v+int64(len(a.kvs)))%2 == 0 {
+					opt = metric.WithAttributeSet(attribute.NewSet(toAttr(a.kvs)...))
+				}
 				if in.float {
 					o.ObserveFloat64(in.fo, float64(a.v)/scale, opt)
 				} else {
@@ -727,6 +776,8 @@ func (rn *runner) history(seedDesc string, nOps int) {
 		err     bool
 	}
 	var dObs, cObs []readerObs
+	reuse := r.Bool()
+	var reusedD, reusedC metricdata.ResourceMetrics
 	var dErrs, cErrs []bool // one entry per Collect call of that reader (also the ones that returned no data)
 	var syncIdx []int
 	for i, k := range kinds {
@@ -833,16 +884,23 @@ func (rn *runner) history(seedDesc string, nOps int) {
 			}
 			d := map[string]any{"history": seedDesc, "collection": nCollect}
 			collectOne := func(delta bool) bool {
-				var rm metricdata.ResourceMetrics
+				var fresh metricdata.ResourceMetrics
+				rmp := &fresh
+				if reuse { // the same destination object again and again
+					rmp = &reusedC
+					if delta {
+						rmp = &reusedD
+					}
+				}
 				var e error
 				if delta {
-					e = deltaR.Collect(cctx, &rm)
+					e = deltaR.Collect(cctx, rmp)
 				} else {
-					e = cumR.Collect(cctx, &rm)
+					e = cumR.Collect(cctx, rmp)
 				}
 				if errors.Is(e, context.Canceled) {
 					// no data: nothing is added to this reader's trace, only the error is recorded
-					if len(rm.ScopeMetrics) != 0 {
+					if len(rmp.ScopeMetrics) != 0 {
 						w.Violation("Collect returned the context's error together with data", seedDesc)
 					}
 					if !cancelledCtx {
@@ -869,9 +927,9 @@ func (rn *runner) history(seedDesc string, nOps int) {
 					cErrs = append(cErrs, e != nil)
 				}
 				if delta {
-					dObs = append(dObs, readerObs{streams: rn.extract(&rm, metricdata.DeltaTemporality, d), err: e != nil})
+					dObs = append(dObs, readerObs{streams: rn.extract(rmp, metricdata.DeltaTemporality, d), err: e != nil})
 				} else {
-					cObs = append(cObs, readerObs{streams: rn.extract(&rm, metricdata.CumulativeTemporality, d), err: e != nil})
+					cObs = append(cObs, readerObs{streams: rn.extract(rmp, metricdata.CumulativeTemporality, d), err: e != nil})
 				}
 				return true
 			}
@@ -1023,7 +1081,7 @@ func (p ePoint) coq() string {
 func (rn *runner) expoHistory(desc string) {
 	r, w := rn.r, rn.w
 	maxSize := int32(vgen.Pick(r, []int{1, 1, 2, 2, 3, 4, 5, 6}))
-	maxScale := int32(r.Range(0, 3))
+	maxScale := int32(vgen.Pick(r, []int{-10, -4, -1, 0, 0, 1, 2, 3, 3}))
 	float := r.Bool()
 	sets, canons := [][]kv{}, []string{}
 	for _, s := range [][]kv{{}, {{"a", int64(1)}}, {{"b", "x"}}}[:r.Range(1, 3)] {
@@ -1123,7 +1181,7 @@ func (rn *runner) expoHistory(desc string) {
 			}
 			if float && r.Chance(1, 6) { // magnitudes on both sides of 1 (0.5, 2): the two buckets of the minimum scale
 				v = vgen.Pick(r, []int64{3 * scale / 4, 3 * scale / 2}) // 0.75, 1.5
-				if maxScale == 0 {                                      // exact powers of two only where the index needs no logarithm
+				if maxScale <= 0 {                                      // exact powers of two only where the index needs no logarithm
 					v = vgen.Pick(r, []int64{scale / 2, 2 * scale, 3 * scale / 4, 3 * scale / 2})
 				}
 			}
@@ -1146,6 +1204,11 @@ func (rn *runner) expoHistory(desc string) {
 				flags[kt.of(canon(s))] |= 8
 			}
 			opt := metric.WithAttributes(toAttr(s)...)
+			if float && r.Chance(1, 12) {
+				// NaN and the infinities are ignored by the exponential aggregator: not counted anywhere
+				fh.Record(ctx, vgen.Pick(r, []float64{math.NaN(), math.Inf(1), math.Inf(-1)}), opt)
+				w.Tally("expo:non-finite value recorded")
+			}
 			if float {
 				fh.Record(ctx, float64(v)/scale, opt)
 			} else {
@@ -1213,7 +1276,7 @@ func main() {
 	otel.SetLogger(logr.Discard())
 	otel.SetErrorHandler(otel.ErrorHandlerFunc(func(error) {}))
 	r := vgen.NewRand(o.Seed)
-	w := vgen.NewWriter(o.Out, "Lib.MetricsModel C08.Spec C08.Model C08.Corr", "case", 160)
+	w := vgen.NewWriter(o.Out, "Lib.MetricsModel C08.Spec C08.Model C08.Corr", "case", 64)
 	w.Rule = "random histories (measure / register callback / unregister / collect-with-script) over 1-8 instruments of the 8 kinds (counter, up-down counter, explicit histogram, gauge, the three observables, histogram with a base-2 exponential view at scale 0) (int64 and float64, float values multiples of 2^-10), 1-6 attribute sets, observed through a delta and a cumulative ManualReader on one provider; " +
 		"a case is non-trivial when at least two collections happened and at least one data point was reported; distinct = distinct Coq case terms; timestamps enter only as dense ranks (order/equality)"
 	rn := &runner{w: w, r: r}
